@@ -19,6 +19,8 @@ class Server:
 
         class H(http.server.BaseHTTPRequestHandler):
             protocol_version = 'HTTP/1.1'
+            wbufsize = -1                      # one write per response (no Nagle / delayed-ACK stall)
+            disable_nagle_algorithm = True
 
             def _handle(self):
                 n = int(self.headers.get('Content-Length') or 0)
